@@ -311,7 +311,21 @@ Qed.
 
 (* ------------------------------------------------------------------ a first step of layer 2 *)
 
-Lemma align_policy_ok_ok : align_policy_ok = true. Proof. vm_compute. reflexivity. Qed.
+(* stated in unfolded form on purpose: the kernel then never has to convert the constant
+   align_policy_ok against its 35,000-case expansion outside the virtual machine *)
+Lemma align_policy_ok_ok :
+  forallb (fun q => forallb (fun e => forallb (fun a => align_open_attr q e a) policy_attrs) policy_elems) [34; 39] = true.
+Proof. vm_compute. reflexivity. Qed.
+
+Lemma forallb3_In {A B C} (f : A -> B -> C -> bool) la lb lc :
+  forallb (fun x => forallb (fun y => forallb (fun z => f x y z) lc) lb) la = true ->
+  forall x y z, In x la -> In y lb -> In z lc -> f x y z = true.
+Proof.
+  intros H x y z Hx Hy Hz.
+  rewrite forallb_forall in H. specialize (H x Hx). cbv beta in H.
+  rewrite forallb_forall in H. specialize (H y Hy). cbv beta in H.
+  rewrite forallb_forall in H. exact (H z Hz).
+Qed.
 
 (* for every element and attribute name of the policy tables and both quote characters: after the
    static text  <E A=q  engine context and tokenizer state agree *)
@@ -326,12 +340,8 @@ Theorem align_open_attr_policy q e a :
    g_is_end (t_tag t) = false /\ g_name (t_tag t) = e /\ g_aname (t_tag t) = a).
 Proof.
   intros Hq He Ha.
-  assert (Hal : align_open_attr q e a = true).
-  { pose proof align_policy_ok_ok as H. unfold align_policy_ok in H.
-    rewrite forallb_forall in H.
-    assert (Hin : In q [34; 39]) by (destruct Hq as [->| ->]; simpl; auto).
-    specialize (H q Hin). rewrite forallb_forall in H. specialize (H e He).
-    rewrite forallb_forall in H. exact (H a Ha). }
+  assert (Hin : In q [34; 39]) by (destruct Hq as [->| ->]; simpl; auto).
+  pose proof (forallb3_In align_open_attr [34; 39] policy_elems policy_attrs align_policy_ok_ok q e a Hin He Ha) as Hal.
   unfold align_open_attr in Hal. apply andb_true_iff in Hal as [Hc Ht]. split.
   - destruct (escape_text false ctx0 (open_attr_text q e a)) as [c edited out|]; [|discriminate Hc].
     exists c, edited, out. split; [reflexivity|].
